@@ -396,6 +396,10 @@ func (u *Unit) havocItem(st *State, it modItem) {
 
 func (u *Unit) invokeCall(fr *frame, st *State, call *ssa.CallCommon, recv Value, args []Value, resT types.Type, pos token.Pos) Value {
 	rsc := u.asSc(recv, call.Value.Type())
+	if n, ok := call.Value.Type().(*types.Named); ok && n.Obj().Pkg() != nil && isNoopCallee(n.Obj().Pkg().Path(), call.Method.Name()) {
+		u.note("A-LOG: logging/metrics calls are no-ops")
+		return u.freshResult(st, resT, "log")
+	}
 	if u.noPanic() {
 		u.oblige(st, "nopanic", "method call on nil interface: "+call.Method.Name(), pos, Neq(rsc.T, TNil), "")
 	}
